@@ -508,6 +508,7 @@ func (m *govMon) step(height int64, t govTx, ok bool, pre, post *GState, watch [
 		}
 		m.refunds++
 	case "EXPIRE_VOTES":
+		m.res.Counters["public_expiries_after_deadline"]++
 		if op == nil || ost != 0 || op.Status != stVoting || !(op.VD < height) {
 			m.hit("expired-before-voting-deadline", "height %d proposal %s expired by a transaction of %s while %s", height, t.PID[:8], t.Signer, describe(a))
 		}
